@@ -463,3 +463,98 @@ Section AscWindow.
     - apply (pred_succ_absurd a); assumption.
   Qed.
 End AscWindow.
+
+(* ---- well-formedness (distinct keys, duplicate-free values, all ids in V) through add_set_connection *)
+Definition mgood (V : nat -> Prop) (m : mset) : Prop := mnodup m /\ mrange V m.
+
+Lemma mgood_aset : forall V m k v, mgood V m -> V k -> NoDup v -> (forall j, In j v -> V j) -> mgood V (aset k v m).
+Proof. intros V m k v [Hn Hr] Hk Hv Hj; split; [apply mnodup_aset; assumption|apply mrange_aset; assumption]. Qed.
+Lemma mgood_ensure : forall V m k, mgood V m -> V k -> mgood V (ensure k m).
+Proof. intros V m k [Hn Hr] Hk; split; [apply mnodup_ensure; assumption|apply mrange_ensure; assumption]. Qed.
+Lemma mgood_arem : forall V m k, mgood V m -> mgood V (arem k m).
+Proof.
+  intros V m k [Hn Hr]; split; [apply mnodup_arem; assumption|].
+  intros k' c; rewrite aget_arem. destruct (Nat.eqb k' k); [discriminate|apply Hr].
+Qed.
+Lemma mgood_eget : forall V m k, mgood V m -> NoDup (eget k m) /\ forall j, In j (eget k m) -> V j.
+Proof. intros V m k [Hn Hr]; split; [apply mnodup_eget; assumption|intros j; apply mrange_eget; assumption]. Qed.
+
+Lemma aoc_good : forall V cr x' y', mgood V (fst cr) -> mgood V (snd cr) -> V x' -> V y' ->
+  mgood V (fst (add_one_connection cr x' y')) /\ mgood V (snd (add_one_connection cr x' y')).
+Proof.
+  intros V [C R] x' y' HC HR Hx Hy; cbn [fst snd] in *. unfold add_one_connection.
+  destruct (smem y' (eget x' C)) eqn:Em; cbn [fst snd].
+  - split; [apply mgood_ensure; assumption|assumption].
+  - destruct (mgood_eget V C x' HC) as [Hn Hv]. destruct (mgood_eget V R y' HR) as [Hn' Hv']. split.
+    + apply mgood_aset; [assumption|assumption|apply nodup_sadd; assumption|].
+      intros j Hj; apply in_sadd in Hj; destruct Hj as [->|Hj]; auto.
+    + apply mgood_aset; [assumption|assumption|apply nodup_sadd; assumption|].
+      intros j Hj; apply in_sadd in Hj; destruct Hj as [->|Hj]; auto.
+Qed.
+
+Lemma aoc_inner_good : forall V x' ys cr, mgood V (fst cr) -> mgood V (snd cr) -> V x' -> (forall y, In y ys -> V y) ->
+  mgood V (fst (fold_left (fun cr y' => add_one_connection cr x' y') ys cr)) /\
+  mgood V (snd (fold_left (fun cr y' => add_one_connection cr x' y') ys cr)).
+Proof.
+  induction ys as [|y ys IH]; cbn [fold_left]; intros cr HC HR Hx Hy; [split; assumption|].
+  destruct (aoc_good V cr x' y HC HR Hx (Hy y (or_introl eq_refl))) as [HC' HR'].
+  apply IH; [assumption|assumption|assumption|]. intros z Hz; apply Hy; now right.
+Qed.
+
+Lemma aoc_outer_good : forall V ys xs cr, mgood V (fst cr) -> mgood V (snd cr) ->
+  (forall x, In x xs -> V x) -> (forall y, In y ys -> V y) ->
+  mgood V (fst (fold_left (fun cr x' => fold_left (fun cr y' => add_one_connection cr x' y') ys cr) xs cr)) /\
+  mgood V (snd (fold_left (fun cr x' => fold_left (fun cr y' => add_one_connection cr x' y') ys cr) xs cr)).
+Proof.
+  induction xs as [|x xs IH]; cbn [fold_left]; intros cr HC HR Hx Hy; [split; assumption|].
+  destruct (aoc_inner_good V x ys cr HC HR (Hx x (or_introl eq_refl)) Hy) as [HC' HR'].
+  apply IH; [assumption|assumption| |assumption]. intros z Hz; apply Hx; now right.
+Qed.
+
+Lemma fold_add_good : forall V v xs m, mgood V m -> V v -> (forall x, In x xs -> V x) ->
+  mgood V (fold_left (fun c x' => aset x' (sadd v (eget x' c)) c) xs m).
+Proof.
+  induction xs as [|x xs IH]; cbn [fold_left]; intros m Hm Hv Hx; [assumption|].
+  apply IH; [|assumption|intros z Hz; apply Hx; now right].
+  destruct (mgood_eget V m x Hm) as [Hn Hj].
+  apply mgood_aset; [assumption|apply Hx; now left|apply nodup_sadd; assumption|].
+  intros j Hi; apply in_sadd in Hi; destruct Hi as [->|Hi]; auto.
+Qed.
+
+Lemma asc_good : forall V C0 R0 from to, mgood V C0 -> mgood V R0 -> V from -> V to ->
+  mgood V (fst (asc_maps C0 R0 from to)) /\ mgood V (snd (asc_maps C0 R0 from to)).
+Proof.
+  intros V C0 R0 from to HC HR Hf Ht. unfold asc_maps.
+  destruct (mgood_eget V C0 from HC) as [Hn1 Hv1]. destruct (mgood_eget V R0 to HR) as [Hn2 Hv2].
+  set (conn1 := aset from (sadd to (eget from C0)) C0).
+  set (rev1 := aset to (sadd from (eget to R0)) R0).
+  assert (G1 : mgood V conn1).
+  { apply mgood_aset; [assumption|assumption|apply nodup_sadd; assumption|].
+    intros j Hj; apply in_sadd in Hj; destruct Hj as [->|Hj]; auto. }
+  assert (G2 : mgood V rev1).
+  { apply mgood_aset; [assumption|assumption|apply nodup_sadd; assumption|].
+    intros j Hj; apply in_sadd in Hj; destruct Hj as [->|Hj]; auto. }
+  destruct (mgood_eget V rev1 from G2) as [Hnf Hvf]. destruct (mgood_eget V conn1 to G1) as [Hnt Hvt].
+  set (frc := eget from rev1) in *. set (tc := eget to conn1) in *.
+  set (rev2 := aset from [] rev1). set (conn2 := aset to [] conn1).
+  assert (G3 : mgood V rev2) by (apply mgood_aset; [assumption|assumption|constructor|intros j []]).
+  assert (G4 : mgood V conn2) by (apply mgood_aset; [assumption|assumption|constructor|intros j []]).
+  set (new_tc := sdiff tc (eget from conn2)). set (new_frc := sdiff frc (eget to rev2)).
+  assert (Hxs : forall x, In x new_frc -> V x) by (intros x Hx; apply in_sdiff in Hx; apply Hvf; tauto).
+  assert (Hys : forall y, In y new_tc -> V y) by (intros y Hy; apply in_sdiff in Hy; apply Hvt; tauto).
+  pose proof (aoc_outer_good V new_tc new_frc (conn2, rev2) G4 G3 Hxs Hys) as [G5 G6].
+  match goal with |- context [fold_left ?f new_frc (conn2, rev2)] =>
+    destruct (fold_left f new_frc (conn2, rev2)) as [conn3 rev3] end. cbn [fst snd] in *.
+  match goal with |- context [fold_left ?f new_frc conn3] => set (conn4 := fold_left f new_frc conn3) end.
+  match goal with |- context [fold_left ?f new_tc rev3] => set (rev4 := fold_left f new_tc rev3) end.
+  assert (G7 : mgood V conn4) by (apply fold_add_good; assumption).
+  assert (G8 : mgood V rev4) by (apply fold_add_good; assumption).
+  destruct (mgood_eget V rev4 to G8) as [Hn8 Hv8]. destruct (mgood_eget V conn4 from G7) as [Hn7 Hv7].
+  assert (G9 : mgood V (aset to (sunion (eget to rev4) frc) rev4)).
+  { apply mgood_aset; [assumption|assumption|apply nodup_sunion; assumption|].
+    intros j Hj; apply in_sunion in Hj; destruct Hj; auto. }
+  assert (G10 : mgood V (aset from (sunion (eget from conn4) tc) conn4)).
+  { apply mgood_aset; [assumption|assumption|apply nodup_sunion; assumption|].
+    intros j Hj; apply in_sunion in Hj; destruct Hj; auto. }
+  split; apply mgood_aset; assumption.
+Qed.
